@@ -24,3 +24,98 @@ def extras(L):
             continue
         out[k] = L.ExcClass(k) if v is None else v
     return out
+
+
+# ----------------------------------------------------------------------
+# per-instance state (structural; shared by C03 and others)
+
+import ast as _ast
+
+_MUTATORS = ("append", "extend", "insert", "pop", "remove", "clear",
+             "update", "add", "discard", "setdefault", "popitem", "sort",
+             "reverse", "appendleft", "popleft", "fill", "resize")
+_MUTABLE_CTORS = ("list", "dict", "set", "deque", "defaultdict",
+                  "OrderedDict", "Counter", "bytearray", "zeros", "ones",
+                  "empty", "full", "array")
+
+
+def _is_self_attr(e):
+    return isinstance(e, _ast.Attribute) and isinstance(e.value, _ast.Name) \
+        and e.value.id == "self"
+
+
+def shared_class_state(cls):
+    """-> [(attr, class-level node, mutating node)]: attributes of the parsed
+    class `cls` that (a) are bound at class level to a mutable object
+    (list / dict / set display, comprehension or constructor), (b) are
+    mutated *in place through an instance* (``self.a[...] = …``,
+    ``self.a += …``, ``self.a.append(…)``, ``del self.a[…]``) by some
+    method and (c) are never re-bound through ``self.a = …`` in
+    ``__init__`` or a method ``__init__`` calls on ``self``.  Such an
+    attribute is one object shared by every instance of the class: what one
+    instance records there, every other instance reads.  Access through the
+    class name (an intended registry) is not reported."""
+    level = {}
+    for st in cls.body:
+        tg = []
+        if isinstance(st, _ast.Assign):
+            tg, val = st.targets, st.value
+        elif isinstance(st, _ast.AnnAssign) and st.value is not None:
+            tg, val = [st.target], st.value
+        for t in tg:
+            if not isinstance(t, _ast.Name):
+                continue
+            mutable = isinstance(val, (_ast.List, _ast.Dict, _ast.Set,
+                                       _ast.ListComp, _ast.DictComp,
+                                       _ast.SetComp)) or (
+                isinstance(val, _ast.Call) and (
+                    (isinstance(val.func, _ast.Name)
+                     and val.func.id in _MUTABLE_CTORS)
+                    or (isinstance(val.func, _ast.Attribute)
+                        and val.func.attr in _MUTABLE_CTORS)))
+            if mutable:
+                level[t.id] = st
+    if not level:
+        return []
+    methods = {f.name: f for f in cls.body
+               if isinstance(f, (_ast.FunctionDef, _ast.AsyncFunctionDef))}
+
+    def rebinds(fn, seen):
+        out = set()
+        for n in _ast.walk(fn):
+            if isinstance(n, _ast.Assign):
+                for t in n.targets:
+                    for e in (t.elts if isinstance(t, _ast.Tuple) else [t]):
+                        if _is_self_attr(e):
+                            out.add(e.attr)
+            elif isinstance(n, _ast.AnnAssign) and _is_self_attr(n.target) \
+                    and n.value is not None:
+                out.add(n.target.attr)
+            elif isinstance(n, _ast.Call) and _is_self_attr(n.func) \
+                    and n.func.attr in methods \
+                    and n.func.attr not in seen:
+                out |= rebinds(methods[n.func.attr], seen | {n.func.attr})
+        return out
+    fresh = rebinds(methods["__init__"], {"__init__"}) \
+        if "__init__" in methods else set()
+    found = []
+    for f in methods.values():
+        for n in _ast.walk(f):
+            hit = None
+            if isinstance(n, (_ast.Assign, _ast.AugAssign, _ast.Delete)):
+                tg = n.targets if not isinstance(n, _ast.AugAssign) \
+                    else [n.target]
+                for t in tg:
+                    if isinstance(t, _ast.Subscript) \
+                            and _is_self_attr(t.value):
+                        hit = t.value.attr
+                    elif isinstance(n, _ast.AugAssign) and _is_self_attr(t):
+                        hit = t.attr
+            elif isinstance(n, _ast.Call) \
+                    and isinstance(n.func, _ast.Attribute) \
+                    and n.func.attr in _MUTATORS \
+                    and _is_self_attr(n.func.value):
+                hit = n.func.value.attr
+            if hit in level and hit not in fresh:
+                found.append((hit, level[hit], n))
+    return found
